@@ -22,6 +22,7 @@ import (
 	"runtime"
 	"sort"
 	"strings"
+	"sync"
 	"time"
 
 	"golang.org/x/crypto/blake2b"
@@ -575,7 +576,7 @@ func DecodeOut(era int, o Out) (common.TransactionOutput, error) {
 // AddUtxo registers an unspent output. The output is decoded by the real decoder of the
 // given era (UTxOs carry over between eras, so callers may use an older era).
 func (s *StubState) AddUtxo(era int, in In, o Out) error {
-	out, err := DecodeOut(era, o)
+	out, err := decodeOutCached(era, o)
 	if err != nil {
 		return err
 	}
@@ -749,4 +750,30 @@ func names(rr []RuleResult) []string {
 		o = append(o, fmt.Sprintf("%s: %T %s", r.Name, r.Err, errStr(r.Err)))
 	}
 	return o
+}
+
+// decoded outputs are immutable for the rules, so equal (era, bytes) pairs share one decoded value
+var (
+	outCacheMu sync.Mutex
+	outCache   = map[string]common.TransactionOutput{}
+)
+
+func decodeOutCached(era int, o Out) (common.TransactionOutput, error) {
+	k := fmt.Sprintf("%d|%x", era, OutNode(era, o).Encode())
+	outCacheMu.Lock()
+	v, ok := outCache[k]
+	outCacheMu.Unlock()
+	if ok {
+		return v, nil
+	}
+	v, err := DecodeOut(era, o)
+	if err != nil {
+		return nil, err
+	}
+	outCacheMu.Lock()
+	if len(outCache) < 100000 {
+		outCache[k] = v
+	}
+	outCacheMu.Unlock()
+	return v, nil
 }
